@@ -96,3 +96,10 @@ func siteHook(site int32) {
 		}
 	}
 }
+
+// Zero puts a variable back to its zero value (used by the generated reset of the
+// analyzer package's run state between two simulated driver processes).
+func Zero[T any](p *T) {
+	var z T
+	*p = z
+}
